@@ -8,6 +8,8 @@ func init() {
 	mut("C10", "shutdown-not-forwarded", "h2/h2.go", "\tgo func() {\n\t\tselect {\n\t\tcase <-closing:\n\t\t\tfinish()\n\t\tcase <-stop:\n\t\t}\n\t}()\n", "", "C10.R2", "proxy shutdown")
 	mut("C10", "wait-for-one-direction", "h2/h2.go", "\twg.Add(2)\n", "\twg.Add(1)\n", "C10.R2", "waits for both")
 	mut("C10", "writer-stops-on-error", "h2/relay.go", "\t\t\t\t\tif err != nil {\n\t\t\t\t\t\twriterErr <- err\n\t\t\t\t\t}\n", "\t\t\t\t\tif err != nil {\n\t\t\t\t\t\twriterErr <- err\n\t\t\t\t\t\treturn\n\t\t\t\t\t}\n", "C10.R4", "writer goroutine ends only")
+	mut("C10", "revert-emit-escape", "h2/relay.go", "\t\tselect {\n\t\tcase output <- f:\n\t\tcase <-w.done:\n\t\t\t// The relay has ended and its writer is gone. The peer may still get here (a\n\t\t\t// WINDOW_UPDATE it is processing); blocking on the full channel would park it\n\t\t\t// forever with flowMu held.\n\t\t\treturn\n\t\t}\n", "\t\toutput <- f\n", "C10.R3", "")
+	mut("C10", "done-never-closed", "h2/relay.go", "\tdefer close(r.done)\n", "", "C10.R3", "")
 	mut("C10", "unbuffered-writer-err", "h2/relay.go", "writerErr := make(chan error, 1)", "writerErr := make(chan error)", "C10.R4", "writerErr is buffered")
 	mut("C10", "unbuffered-frame-ready", "h2/relay.go", "frameReady := make(chan struct{}, 1)", "frameReady := make(chan struct{})", "C10.R4", "")
 	mut("C10", "reader-ignores-closing", "h2/relay.go", "\t\tcase <-closing:\n\t\t\t// The ReadFrame goroutine is abandoned at this point. It completes as soon as the blocking\n\t\t\t// ReadFrame call completes, but could potentially leak for an unspecified duration.\n\t\t\treturn nil\n", "", "C10.R4", "select watches")
